@@ -73,6 +73,11 @@ func TestVerifC01W(t *testing.T) {
 		t.Fatal(err)
 	}
 	defer w.Close()
+	defer func() {
+		for _, s := range verifServers {
+			s.Close()
+		}
+	}()
 	timex.SetFakeNow(time.Duration(1e15))
 	cancelled, cancel := context.WithCancel(context.Background())
 	cancel()
@@ -144,14 +149,39 @@ func TestVerifC01W(t *testing.T) {
 	}
 }
 
-// a Redis client of this package on its own miniredis server (the client manager caches the
-// connection - and with it the hook's breaker - per address)
+// The client manager of this package caches the go-redis client - and with it the hook's
+// breaker - per ADDRESS for the life of the process.  Every call below must therefore get an
+// address this process has never used: a server that was closed frees its port, the OS may
+// hand the same port to a later server, and New(addr) would then silently talk through the
+// cached client whose hook still holds the breaker of the EARLIER call (possibly preloaded
+// with failures: a spurious rejection).  So the servers stay open until the process ends
+// (their ports cannot be reused) and an address seen before is refused.
+var (
+	verifServers []*miniredis.Miniredis
+	verifAddrs   = map[string]bool{}
+)
+
+func verifFreshServer() (*miniredis.Miniredis, error) {
+	for i := 0; i < 100; i++ {
+		s, err := miniredis.Run()
+		if err != nil {
+			return nil, err
+		}
+		verifServers = append(verifServers, s) // stays open: its port stays taken
+		if !verifAddrs[s.Addr()] {
+			verifAddrs[s.Addr()] = true
+			return s, nil
+		}
+	}
+	return nil, errors.New("no unused miniredis address")
+}
+
+// a Redis client of this package on its own miniredis server
 func verifReal(t *testing.T, ctx context.Context, rej bool, class int64) ([]int64, error) {
-	s, err := miniredis.Run()
+	s, err := verifFreshServer()
 	if err != nil {
 		return nil, err
 	}
-	defer s.Close()
 	r := New(s.Addr())
 	p, err := breaker.VerifAttach(r.brk)
 	if err != nil {
@@ -178,6 +208,11 @@ func verifReal(t *testing.T, ctx context.Context, rej bool, class int64) ([]int6
 		invoked = 1 // miniredis does not count commands it answers with the injected error
 	}
 	after := p.Sums()
+	// drop the cached client's connections (the address is never used again); the server keeps
+	// listening so that its port stays taken
+	if cli, cerr := getClient(r); cerr == nil {
+		cli.Close()
+	}
 	var sk int64
 	switch {
 	case e == nil:
